@@ -8,6 +8,7 @@
 #include <netinet/in.h>
 #include <poll.h>
 #include <dirent.h>
+#include <unordered_map>
 
 namespace xs {
 
@@ -178,11 +179,14 @@ struct Kernel {
     int64_t rescall_index = 0;                 // global index of resource-creating calls
     int64_t fail_rescall_at = -1; int fail_rescall_errno = 0;
     int64_t fail_rescall_at2 = -1; int fail_rescall_errno2 = 0;
+    // wire cut (fault): after cut_at accepted bytes of direction cut_dir (0: connector->acceptor, 1: reverse)
+    // of the cut_conn-th established TCP connection the sending host "dies" (mode 1 FIN, 2 RST, 3 silence)
+    int64_t cut_at = -1; int cut_mode = 0; int cut_dir = -1; int cut_conn = 0; int conn_count = 0;
     bool record_calls = false;
     std::vector<KCallRec> callrec;
     int cur_op_index = -1;
     // accounting
-    std::set<void *> live_allocs; std::map<void *, size_t> alloc_size;
+    std::unordered_map<void *, size_t> allocs;   // live blocks allocated by library code (never iterated where order could matter)
     size_t live_bytes = 0, peak_bytes = 0;
     int64_t ssl_ctx_balance = 0, ssl_balance = 0;
     bool track_allocs = true;
